@@ -446,9 +446,15 @@ func (g GenParameter) ToString() string {
 // GenParameters represents a sorted parameter collection
 type GenParameters []GenParameter
 
-func (g GenParameters) Len() int           { return len(g) }
-func (g GenParameters) Less(i, j int) bool { return g[i].Name < g[j].Name }
-func (g GenParameters) Swap(i, j int)      { g[i], g[j] = g[j], g[i] }
+func (g GenParameters) Len() int { return len(g) }
+func (g GenParameters) Less(i, j int) bool {
+	if g[i].Name != g[j].Name {
+		return g[i].Name < g[j].Name
+	}
+	// the same name may be used in several locations: keep their order stable
+	return g[i].Location < g[j].Location
+}
+func (g GenParameters) Swap(i, j int) { g[i], g[j] = g[j], g[i] }
 
 // HasSomeDefaults returns true is at least one parameter has a default value set
 func (g GenParameters) HasSomeDefaults() bool {
@@ -527,9 +533,14 @@ type GenOperationGroup struct {
 // GenOperationGroups is a sorted collection of operation groups
 type GenOperationGroups []GenOperationGroup
 
-func (g GenOperationGroups) Len() int           { return len(g) }
-func (g GenOperationGroups) Swap(i, j int)      { g[i], g[j] = g[j], g[i] }
-func (g GenOperationGroups) Less(i, j int) bool { return g[i].Name < g[j].Name }
+func (g GenOperationGroups) Len() int      { return len(g) }
+func (g GenOperationGroups) Swap(i, j int) { g[i], g[j] = g[j], g[i] }
+func (g GenOperationGroups) Less(i, j int) bool {
+	if g[i].Name != g[j].Name {
+		return g[i].Name < g[j].Name
+	}
+	return g[i].PackageAlias < g[j].PackageAlias
+}
 
 // GenStatusCodeResponses a container for status code responses
 type GenStatusCodeResponses []GenResponse
